@@ -69,6 +69,8 @@ CONSTRUCTED = [
 MULTI = [
     "O=C(NCCCOc1ccccc1)c1ccccc1", "CS(=O)CCOC(C)=O", "CC(=O)OCCNC(C)=O", "COC(=O)CCC(=O)OCC", "CCOC(=O)CN(C)C(=O)OC", "CSCCN(C)CCOC",
     "CC(=O)Nc1ccc(OC(C)=O)cc1", "COc1ccc(SC)cc1OC", "CCN(CC)C(=O)COC(=O)CC", "CC(C)OC(=O)C(C)NC(=O)OC(C)(C)C", "COCCOCCOC", "CNC(=O)CCSC",
+    # one atom carrying two or three open points once its substituents are removed (acetals, ketals, orthoesters, aminals)
+    "COCOC", "CC(C)(OC)OC", "COC(OC)OC", "COC(OC)c1ccccc1", "CN(C)COC", "CCOC(C)OCC", "COC(C)(C)OCC", "CSCSC", "COCN(C)C", "CC(OC)(OC)OC",
     # isotope labels: hydrogens that are atoms of the molecular graph
     "[2H]c1ccccc1CCCC", "[2H]C([2H])([2H])OC(=O)CC", "CC(=O)OC([2H])([2H])C", "[3H]c1ccc(OC)cc1", "[2H]N(C)C(=O)CC", "[13CH3]OC(=O)CC",
 ]
@@ -112,6 +114,8 @@ HANDMADE = [
     ("two water catalysts", [("C", "CC", [(0, "C", 1, "C")]), ("O", "O", []), ("O", "O", [])]),
     ("catalyst passthrough", [("C", "C", [])]),
     ("two catalysts", [("CC", "CC", []), ("c1ccccc1", "c1ccccc1", [])]),
+    ("the same catalyst twice", [("CCO", "CCO", []), ("CCO", "CCO", [])]),
+    ("spectator equals the completion", [("CC", "CCOC(C)=O", [(1, "C", 2, "O")]), ("CCO", "CCO", []), ("CCN(CC)CC", "CCN(CC)CC", [])]),
     ("only water catalyst", [("O", "O", [])]),
     ("alcohol catalyst gets boundary", [("CC=O", "CC(=O)Cl", [(1, "C", 3, "Cl")]), ("CO", "CO", [])]),
     ("alcohol catalyst, three compounds", [("CC=O", "CC(=O)Cl", [(1, "C", 3, "Cl")]), ("CO", "CO", []), ("CC", "CC", [])]),
@@ -960,6 +964,19 @@ def run_cuts(ctx, cases, tabs, jt, label, with_model=True):
                 flows.append((dict(key, mode="one", side=k), comps, out, log))
                 if stmt_generic(ctx, dict(key, mode="one", side=k), before, out, jt):
                     stmt_expansion(ctx, case, k, out, jt)
+                    # the same completion next to unmatched reactants (pass-through compounds) that happen to be the very
+                    # molecules the completion produces: every compound of the set is part of the product
+                    if "ok" in out and len(flows) % 7 == 0:
+                        parts = out["ok"]["smiles"].split(".")
+                        extra = [(p, p, []) for p in parts] + [(parts[0], parts[0], [])]
+                        try:
+                            comps2, before2, out2, log2 = run_real(spec + extra)
+                        except Exception:  # noqa: BLE001
+                            out2 = None
+                        if out2 is not None:
+                            ctx.count("one+identical spectators")
+                            flows.append((dict(key, mode="one+spectators", side=k), comps2, out2, log2))
+                            stmt_generic(ctx, dict(key, mode="one+spectators", side=k, spectators=[e[0] for e in extra]), before2, out2, jt)
         else:
             n_nottrue += 1
             # not a true cut: the round-trip claim does not apply, the generic claims do (whatever the fragments are)
@@ -1052,7 +1069,27 @@ def run_multi(ctx, specs, tabs, jt, label="multi"):
         if "ok" in out:
             ctx.count("multi:rules reported=%d" % len(out["ok"]["rules"]))
         flows.append((key, comps, out, log))
-        stmt_generic(ctx, key, before, out, jt)
+        if stmt_generic(ctx, key, before, out, jt) and "ok" in out:
+            # every open point is worked off on its own: the completion of the core reports exactly the rules that the same
+            # core reports for each of its points alone (an atom carrying two open points is completed twice)
+            fs, src, bl = c["spec"][0]
+            want = []
+            alone_ok = True
+            for b in bl:
+                try:
+                    _, _, o1, _ = run_real([(fs, src, [b])])
+                except Exception:  # noqa: BLE001
+                    alone_ok = False
+                    break
+                if "ok" not in o1:
+                    alone_ok = False
+                    break
+                want += list(o1["ok"]["rules"])
+            if alone_ok:
+                ctx.count("multi:compared with its points alone")
+                if sorted(want) != sorted(out["ok"]["rules"]):
+                    ctx.violation(M_OPEN, dict(key, result=out["ok"]["smiles"]),
+                                  "rules reported for the core %s, for its %d points one at a time %s" % (out["ok"]["rules"], len(bl), want), CALL_SITE)
     if flows:
         corr_flows(ctx, flows, tabs, label)
     return flows
